@@ -132,8 +132,8 @@ theorem up_to_date_build_runs_nothing (e0 : Env) (a : Run.Args) (adopt : Bool) (
 /-- **After a successful build, the same build again does nothing** — the round trip, proved for
     projects without discovered dependencies (no `depfile`/`deps`, no command that rewrites an
     input, no dependency lists in the log) on graphs without ordering cycles.  If an invocation
-    succeeds (without reloading the manifest), every step it wanted was marked, the files those
-    steps name exist afterwards, and the manifest still loads to the same graph, then the next
+    succeeds (without reloading the manifest), the files the steps it wanted name exist
+    afterwards, and the manifest still loads to the same graph, then the next
     invocation with the same arguments changes nothing, starts no command and reports 0 tasks —
     whatever the completion orders and hash-set iteration orders in either invocation.
     Composition of `Work.build_done_js` (at the end of a successful `run::build` every Done step is
@@ -145,8 +145,6 @@ theorem build_after_successful_build_does_nothing (w : World) (a : InvArgs) (per
     (plain : Plain e0.g) (hlog : ∀ r ∈ w.log, r.deps = [])
     (acyc : Sched.Acyclic (schedGraph e0.g)) (hpar : 0 < a.par) (n : Nat)
     (hdone : (Run.build (schedGraph e0.g) (argsOf l a) (choices a.adopt perms fin) e0).2.2 = .done n)
-    (hcomplete : ∀ b, Run.Wanted (schedGraph e0.g) (argsOf l a) b →
-      (Run.build (schedGraph e0.g) (argsOf l a) (choices a.adopt perms fin) e0).1.st b ≠ .unknown)
     (hpresent : ∀ b bm, Run.Wanted (schedGraph e0.g) (argsOf l a) b → buildOf e0.g b = some bm → bm.cmdline.isNone = false →
       AllPresent (Run.build (schedGraph e0.g) (argsOf l a) (choices a.adopt perms fin) e0).2.1 bm)
     (w' : World)
@@ -157,7 +155,7 @@ theorem build_after_successful_build_does_nothing (w : World) (a : InvArgs) (per
     (o1 o2 : List (List Nat) × List (Nat × Sched.Term)) :
     (invoke w' a o1 o2).1 = w' ∧ commandEvents (invoke w' a o1 o2).2.2 = [] ∧
     (∀ k, (invoke w' a o1 o2).2.1 = .done k → k = 0) :=
-  second_build_does_nothing w a perms fin l e0 hl plain hlog acyc hpar n hdone hcomplete hpresent w' hw' e0' hl' o1 o2
+  second_build_does_nothing w a perms fin l e0 hl plain hlog acyc hpar n hdone hpresent w' hw' e0' hl' o1 o2
 
 /-- Non-vacuity: a two-file project (`build out: cc in`) whose record matches the tree satisfies
     the hypothesis. -/
